@@ -150,6 +150,12 @@ pub fn run_c01(case: &Case) -> CaseResult {
 pub fn merge_feeds(ops: &[Op]) -> Vec<Op> {
     let mut out: Vec<Op> = Vec::new();
     for op in ops {
+        // "empty chunks are no-ops": the whole-feed side does not make the call at all
+        match op {
+            Op::FeedStr(s) if s.is_empty() => continue,
+            Op::FeedBytes(b) if b.is_empty() => continue,
+            _ => {}
+        }
         match (out.last_mut(), op) {
             (Some(Op::FeedStr(a)), Op::FeedStr(b)) => a.push_str(b),
             (Some(Op::FeedBytes(a)), Op::FeedBytes(b)) => a.extend_from_slice(b),
